@@ -165,6 +165,12 @@ func (r *run) nextSeq() int {
 
 var errRefused = errors.New("simnet: connection refused")
 
+// Addresses in 10.9.7.0/24 swallow every packet (no answer, no reset); other
+// addresses nobody listens on refuse the connection at once.
+var blackholeNet = netip.MustParsePrefix("10.9.7.0/24")
+
+func isBlackhole(ap netip.AddrPort) bool { return blackholeNet.Contains(ap.Addr()) }
+
 func normAddr(addr string) (netip.AddrPort, bool) {
 	ap, err := netip.ParseAddrPort(addr)
 	if err != nil {
@@ -198,6 +204,12 @@ func (r *run) dialTLS(ctx context.Context, network, addr string, tc *tls.Config)
 	if !ok || !strings.HasPrefix(network, "tcp") {
 		rec.Outcome = "bad-address"
 		return nil, fmt.Errorf("simnet: cannot dial %s %q", network, addr)
+	}
+	if isBlackhole(ap) {
+		// packets vanish: the attempt ends when its context does
+		rec.Outcome = "blackhole"
+		<-ctx.Done()
+		return nil, ctx.Err()
 	}
 	ep := r.tlsEP[ap]
 	if ep == nil {
@@ -375,6 +387,11 @@ func (s *h3Stub) dialFunc(phase string) func(ctx context.Context, network, addr 
 			return nil, errors.New("h3 stub: enumeration pass")
 		}
 		ap, ok := normAddr(addr)
+		if ok && isBlackhole(ap) {
+			rec.Outcome = "blackhole"
+			<-ctx.Done()
+			return nil, ctx.Err()
+		}
 		if !ok || r.net.h3[ap] == nil {
 			rec.Outcome = "refused"
 			return nil, fmt.Errorf("dial udp %s: %w", addr, errRefused)
@@ -658,6 +675,8 @@ func execute(t *testing.T, prop string, p *Plan) *core.Result {
 			req.Header.Set("X-Sim-Size", strconv.Itoa(q.RespSize))
 			if q.HostOverride != "" {
 				req.Host = q.HostOverride
+			} else if q.EmptyHost {
+				req.Host = ""
 			}
 			o.urlBefore, o.hostBefore = req.URL.String(), req.Host
 			before := srv.LogLen()
